@@ -1596,6 +1596,10 @@ generate_pes_packet		(vbi_dvb_mux *		mx,
 	return 0; /* success */
 
  failed:
+	/* The caller discards this packet, an unfinished raw VBI
+	   line must not be continued in the next one. */
+	mx->raw_samples_left = 0;
+
 	*sliced = s;
 	*sliced_left = s_end - s;
 
@@ -1808,6 +1812,9 @@ vbi_dvb_mux_cor		(vbi_dvb_mux *		mx,
 			*sliced = s;
 			*sliced_left = s_left;
 			mx->cor_end = 0;
+			/* The packet is discarded, do not continue
+			   an unfinished raw VBI line. */
+			mx->raw_samples_left = 0;
 			/* errno = VBI_ERR_BUFFER_OVERFLOW; */
 			return FALSE;
 		}
@@ -1995,6 +2002,9 @@ vbi_dvb_mux_feed		(vbi_dvb_mux *		mx,
 	}
 
 	if (unlikely (s_left > 0)) {
+		/* The packet is discarded, do not continue
+		   an unfinished raw VBI line. */
+		mx->raw_samples_left = 0;
 		/* errno = VBI_ERR_BUFFER_OVERFLOW; */
 		return FALSE;
 	}
